@@ -596,46 +596,87 @@ func (ctx Ctx) isVariadic(call *ast.CallExpr) bool {
 	return ok && sig.Variadic()
 }
 
+// sameRepresentation reports whether values of the two types are the same
+// GooseLang values, so that a conversion between them is the operand itself
+func sameRepresentation(to, from types.Type) bool {
+	to, from = to.Underlying(), from.Underlying()
+	if types.IdenticalIgnoreTags(to, from) {
+		return true
+	}
+	toPtr, ok1 := to.(*types.Pointer)
+	fromPtr, ok2 := from.(*types.Pointer)
+	return ok1 && ok2 && types.IdenticalIgnoreTags(
+		toPtr.Elem().Underlying(), fromPtr.Elem().Underlying())
+}
+
+func isByteSliceType(t types.Type) bool {
+	if t, ok := t.Underlying().(*types.Slice); ok {
+		if elTy, ok := t.Elem().Underlying().(*types.Basic); ok {
+			return elTy.Kind() == types.Uint8
+		}
+	}
+	return false
+}
+
+// conversionExpr translates the conversion T(x).
+//
+// GooseLang is untyped, so a conversion between types with the same
+// representation is its operand. The conversions that compute something have
+// a GooseLang operation (integer widths, string <-> []byte) or are not
+// supported.
+func (ctx Ctx) conversionExpr(call *ast.CallExpr) coq.Expr {
+	args := call.Args
+	arg := args[0]
+	to := ctx.typeOf(call.Fun)
+	from := ctx.typeOf(arg)
+	if b, ok := from.(*types.Basic); ok && b.Kind() == types.UntypedNil {
+		return ctx.expr(arg)
+	}
+	if isString(from.Underlying()) && isByteSliceType(to) {
+		return ctx.newCoqCall("StringToBytes", args)
+	}
+	if isString(to.Underlying()) {
+		if isString(from.Underlying()) {
+			return ctx.expr(arg)
+		}
+		if !isByteSliceType(from) {
+			ctx.unsupported(call,
+				"conversion from type %v to string", from)
+			return coq.CallExpr{}
+		}
+		return ctx.newCoqCall("StringFromBytes", args)
+	}
+	if b, ok := to.Underlying().(*types.Basic); ok &&
+		b.Info()&types.IsNumeric != 0 {
+		if _, modelled := getIntegerType(b); !modelled {
+			// int8(x), uint16(x), float64(x), ...: there is no GooseLang
+			// value of such a type for the operand to become
+			ctx.unsupported(call, "conversion to unsupported type %v", b)
+		}
+		// TODO: handle integer conversions here, checking if call.Fun is an integer
+		//  type; see https://github.com/goose-lang/goose/issues/14
+		return ctx.expr(arg)
+	}
+	if _, ok := to.Underlying().(*types.Interface); ok {
+		if !types.Identical(to, from) {
+			// the interface value would have to be built from the methods
+			// of the operand
+			ctx.unsupported(call, "conversion of %v to interface type %v", from, to)
+		}
+		return ctx.expr(arg)
+	}
+	if !sameRepresentation(to, from) {
+		ctx.unsupported(call, "conversion from type %v to %v", from, to)
+	}
+	return ctx.expr(arg)
+}
+
 func (ctx Ctx) methodExpr(call *ast.CallExpr) coq.Expr {
 	args := call.Args
 	// discovered this API via
 	// https://go.googlesource.com/example/+/HEAD/gotypes#named-types
 	if ctx.info.Types[call.Fun].IsType() {
-		// string -> []byte conversions are handled specially
-		if f, ok := call.Fun.(*ast.ArrayType); ok {
-			if f.Len == nil && isIdent(f.Elt, "byte") {
-				arg := args[0]
-				if isString(ctx.typeOf(arg)) {
-					return ctx.newCoqCall("StringToBytes", args)
-				}
-			}
-		}
-		// []byte -> string are handled specially
-		if f, ok := call.Fun.(*ast.Ident); ok && f.Name == "string" {
-			arg := args[0]
-			if isString(ctx.typeOf(arg).Underlying()) {
-				return ctx.expr(args[0])
-			}
-			if !isByteSlice(ctx.typeOf(arg)) {
-				ctx.unsupported(call,
-					"conversion from type %v to string", ctx.typeOf(arg))
-				return coq.CallExpr{}
-			}
-			return ctx.newCoqCall("StringFromBytes", args)
-		}
-		// a different type conversion, which is a noop in GooseLang (which is
-		// untyped)
-		// TODO: handle integer conversions here, checking if call.Fun is an integer
-		//  type; see https://github.com/goose-lang/goose/issues/14
-		if b, ok := ctx.typeOf(call.Fun).Underlying().(*types.Basic); ok &&
-			b.Info()&types.IsNumeric != 0 {
-			if _, modelled := getIntegerType(b); !modelled {
-				// int8(x), uint16(x), float64(x), ...: there is no GooseLang
-				// value of such a type for the operand to become
-				ctx.unsupported(call, "conversion to unsupported type %v", b)
-			}
-		}
-		return ctx.expr(args[0])
+		return ctx.conversionExpr(call)
 	}
 
 	var retExpr coq.Expr
@@ -1240,7 +1281,8 @@ func (ctx Ctx) function(s *ast.Ident) coq.Expr {
 // isBuiltinIdent reports whether e is the predeclared identifier name (and not
 // a user-defined function, variable or type that merely shares its spelling)
 func (ctx Ctx) isBuiltinIdent(e ast.Expr, name string) bool {
-	ident, ok := e.(*ast.Ident)
+	// (uint32)(x) is uint32(x)
+	ident, ok := ast.Unparen(e).(*ast.Ident)
 	return ok && ident.Name == name && ctx.goBuiltin(ident)
 }
 
